@@ -46,7 +46,7 @@ package memkv
 //@   ensures [counted] skl_writes == old(skl_writes)+1
 
 //@ func (*batch).PutIfNotExist(key, val, ttl)
-//@   props C11 C12
+//@   props C11 C12 C19
 //@   nosafety
 //@   requires b != nil && b.store != nil && holds_w(b.store)
 //@   modifies inferred:(*batch).PutIfNotExist ghost.bget
@@ -56,12 +56,23 @@ package memkv
 //@   ensures [store-untouched] skl_writes == old(skl_writes)
 
 //@ func (*batch).CAS(key, newVal, oldVal, ttl)
-//@   props C11 C12
+//@   props C11 C12 C19
 //@   nosafety
 //@   requires b != nil && b.store != nil && holds_w(b.store)
 //@   modifies inferred:(*batch).CAS ghost.bget
 //@   ensures [armed-batches-ignore-the-operation] old(b.err) != nil ==> b.err == old(b.err)
 //@   ensures [takes-effect-exactly-when-the-value-seen-equals-the-expectation] old(b.err) == nil ==> (b.err == nil) == (!is_nil(bget) && bytes_eq(bget, oldVal))
+//@   ensures [refusal-is-a-failed-condition] old(b.err) == nil && b.err != nil ==> err_is(b.err, storage.ErrCASFailed)
+//@   ensures [store-untouched] skl_writes == old(skl_writes)
+
+// compare-and-delete of the iterator's current record: takes effect exactly when the value the batch
+// sees for that key equals the value the iterator read
+//@ func (*batch).DelCurrent(it)
+//@   props C11 C12 C19
+//@   nosafety
+//@   requires b != nil && b.store != nil && holds_w(b.store) && it != nil
+//@   modifies inferred:(*batch).DelCurrent ghost.bget
+//@   ensures [armed-batches-ignore-the-operation] old(b.err) != nil ==> b.err == old(b.err)
 //@   ensures [refusal-is-a-failed-condition] old(b.err) == nil && b.err != nil ==> err_is(b.err, storage.ErrCASFailed)
 //@   ensures [store-untouched] skl_writes == old(skl_writes)
 
